@@ -18,9 +18,25 @@ T  seeded random histories on worlds larger than the model-checking bound run
    worker state, returned placements) and the records -- also those of the
    replays in R -- are checked by TLC with `RecCheck` (the same `Cl*` operators).
 
+Model loading (--scheduler_run_load).  The same three legs run on memory-tight
+clusters where the policy itself emits LOAD / EVICT: the spec keeps per worker
+the available and the pending models (remaining load time) and the model
+memory, transcribes run_load except for its floating-point priority order,
+which is a free parameter of Invoke (M: the invariants hold for every order);
+"loaded" is judged after the evictions of the same answer (the simulator
+handles the events of one instant in the order evict, load, place), a pending
+model is not loaded; C15.load_target / C15.load_fits state run_load's part.
+R: the dumped graph has one Invoke edge per answer some order yields; NDWalker
+executes the move on the real scheduler (workers evolve by the real
+evict_profile / load_profile / step) and continues in the successor that
+equals the projection of the real objects (none = batch_eq divergence);
+`-simulate` behaviours of bigger worlds are used as action scripts.  T: random
+clusters with models of different size / load time / request rate / urgency.
+
 Python only builds the real objects, applies placements the way the simulator
-does (Task.schedule / WorkerPool.place_task / Task.start, WorkerPool.step /
-remove_task / Task.finish, Task.cancel) and ships data to and from TLC.
+does (Task.cancel, WorkerPool.evict_profile, WorkerPool.load_profile,
+Task.schedule / WorkerPool.place_task / Task.start, WorkerPool.step /
+remove_task / Task.finish) and ships data to and from TLC.
 """
 from __future__ import annotations
 
@@ -45,6 +61,8 @@ INVARIANTS = {
     "C15_OnTime": "C15.on_time",
     "C15_PlacedOnce": "C15.placed_once",
     "C15_LateCancelled": "C15.late_cancelled",
+    "C15_LoadTarget": "C15.load_target",
+    "C15_LoadFits": "C15.load_fits",
     "QueuesSorted": "spec.sanity",
     "QueuedAreLive": "spec.sanity",
     "TypeOK": "spec.sanity",
@@ -58,6 +76,8 @@ DUMMY_CONSTANTS = {
     "InitOrder": [],
     "MaxT": 0,
     "Steps": mcgen.Raw("{}"),
+    "RunLoad": False,
+    "LoadOf": mcgen.Raw("<<>>"),
 }
 
 
@@ -69,8 +89,31 @@ def Q(m, dls, arr=0):
     return {"m": m, "dls": set(dls), "arr": arr}
 
 
-def Wk(cap, loaded):
-    return {"cap": cap, "loaded": set(loaded)}
+def Wk(cap, loaded, mem=0):
+    return {"cap": cap, "mem": mem, "loaded": set(loaded)}
+
+
+def L(mem, lt):
+    return {"mem": mem, "lt": lt}
+
+
+def full(cfg):
+    """cfg with the loading constants filled in (run_load off: models take no memory and no time)"""
+    c = dict(cfg)
+    c.setdefault("RunLoad", False)
+    c.setdefault("LoadOf", {m: L(0, 0) for m in sorted(c["Strats"])})
+    c["Workers"] = [dict(w, mem=w.get("mem", 0)) for w in c["Workers"]]
+    return c
+
+
+def flags_ns(**kw):
+    """a stand-in for the absl flags the policy reads at construction"""
+    import types
+
+    d = dict(log_dir=None, log_file_name=None, log_level="info", scheduler_log_times=[], scheduler_run_load=False,
+             scheduler_log_to_file=False)  # fmt: skip
+    d.update(kw)
+    return types.SimpleNamespace(**d)
 
 
 # ---------------------------------------------------------------------------
@@ -87,13 +130,16 @@ def _norm(v):
     return v
 
 
-NO_OUT = {"at": -1, "offered": [], "cancelled": [], "batches": [], "free": []}
+NO_OUT = {"at": -1, "offered": [], "cancelled": [], "batches": [], "free": [], "evicts": [], "loads": [], "loaded": [],
+          "pending": [], "fmem": []}  # fmt: skip
 
 
 class RealWorld:
-    """cfg: Strats {m: [{b,rt,dem}]}, Reqs [{m,dls,arr}], Workers [{cap,loaded}], Goal, InitOrder."""
+    """cfg: Strats {m: [{b,rt,dem}]}, Reqs [{m,dls,arr}], Workers [{cap,mem,loaded}], Goal, InitOrder,
+    RunLoad, LoadOf {m: {mem,lt}}."""
 
     def __init__(self, cfg):
+        cfg = full(cfg)
         self.cfg = cfg
         self.models = sorted(cfg["Strats"])
         self.nreq = len(cfg["Reqs"])
@@ -105,12 +151,18 @@ class RealWorld:
 
         gpu = [{"name": "GPU", "id": "any", "q": 0}]
         self.gpu_any = N.Resource(name="GPU", _id="any")
+        self.ram_any = N.Resource(name="RAM", _id="any")
         self.profile = {}
+        load_of = self.cfg["LoadOf"]
+
+        def ram(q):  # model memory is a resource type of its own
+            return N.Resources(resource_vector={N.Resource(name="RAM", _id="any"): q}) if q else N.Resources()
+
         for m in self.models:
             strategies = [
                 mk_strategy([dict(gpu[0], q=s["dem"])], runtime=s["rt"], batch_size=s["b"]) for s in self.cfg["Strats"][m]
             ]
-            loading = [N.ExecutionStrategy(resources=N.Resources(), batch_size=1, runtime=us(0))]
+            loading = [N.ExecutionStrategy(resources=ram(load_of[m]["mem"]), batch_size=1, runtime=us(load_of[m]["lt"]))]
             self.profile[m] = mk_profile(m, strategies, loading)
         self.model_of_profile = {p.id: m for m, p in self.profile.items()}
         self.task = {}
@@ -130,19 +182,22 @@ class RealWorld:
         self.workload = N.Workload.from_task_graphs(graphs)
         self.workers = []
         for wi, w in enumerate(self.cfg["Workers"], 1):
-            worker = N.Worker(
-                name=f"w{wi}", resources=N.Resources(resource_vector={N.Resource(name="GPU"): w["cap"]})
-            )
-            for m in sorted(w["loaded"]):
+            vec = {N.Resource(name="GPU"): w["cap"]}
+            if w["mem"]:
+                vec[N.Resource(name="RAM")] = w["mem"]
+            worker = N.Worker(name=f"w{wi}", resources=N.Resources(resource_vector=vec))
+            for m in sorted(w["loaded"]):  # resident at the start: loaded in no time, holding its memory
                 worker.load_profile(
-                    self.profile[m], N.ExecutionStrategy(resources=N.Resources(), batch_size=1, runtime=us(0))
+                    self.profile[m], N.ExecutionStrategy(resources=ram(load_of[m]["mem"]), batch_size=1, runtime=us(0))
                 )
             worker.step(us(0), us(1))  # pending -> available
             self.workers.append(worker)
         self.windex = {w.id: i for i, w in enumerate(self.workers, 1)}
         self.pool = N.WorkerPool(name="pool", workers=self.workers)
         self.pools = N.WorkerPools([self.pool])
-        self.sched = ClockworkScheduler(runtime=us(0), goal=self.cfg["Goal"])
+        self.sched = ClockworkScheduler(
+            runtime=us(0), goal=self.cfg["Goal"], _flags=flags_ns(scheduler_run_load=True) if self.cfg["RunLoad"] else None
+        )
         if self.cfg.get("InitOrder"):
             # registers the models in this order; the loading placements it proposes are ignored
             # (the harness has loaded the profiles itself)
@@ -164,8 +219,25 @@ class RealWorld:
     def on(self):
         return [sorted(self.req_of_task[t.id] for t in w.get_placed_tasks()) for w in self.workers]
 
+    def pending(self):
+        """per worker [model, remaining load time] of the models still loading"""
+        US = ns().EventTime.Unit.US
+        return [
+            sorted([self.model_of_profile[p.id], w.is_available(p).to(US).time] for p in w.get_pending_profiles())
+            for w in self.workers
+        ]
+
+    def fmem(self):
+        return [w.resources.get_available_quantity(self.ram_any) for w in self.workers]
+
     def project(self):
-        return _norm({"out": self.out, "obs": {"free": self.free(), "on": self.on()}})
+        return _norm(
+            {
+                "out": self.out,
+                "obs": {"free": self.free(), "on": self.on(), "loaded": self.loaded(), "pending": self.pending(),
+                        "fmem": self.fmem()},
+            }
+        )  # fmt: skip
 
     # -- actions ---------------------------------------------------------
     def arrive(self, r, d):
@@ -198,14 +270,37 @@ class RealWorld:
             "free": self.free(),
             "loaded": self.loaded(),
             "failed": [],
+            "evicts": [],
+            "loads": [],
+            "pending": [[m for m, _ in ps] for ps in self.pending()],
+            "fmem": self.fmem(),
+            "lfailed": [],
         }
         placements = self.sched.schedule(us(self.now), self.workload, self.pools)
         by_batch = collections.OrderedDict()
+        evicts, loads = [], []
+        US = N.EventTime.Unit.US
         for p in placements:
             if p.placement_type == PT.CANCEL_TASK:
                 call["cancelled"].append(self.req_of_task[p.task.id])
             elif p.placement_type == PT.PLACE_TASK and p.is_placed():
                 by_batch.setdefault(p.execution_strategy.id, []).append(p)
+            elif p.placement_type == PT.EVICT_WORK_PROFILE:
+                evicts.append(p)
+                call["evicts"].append(
+                    {"m": self.model_of_profile.get(p.work_profile.id, "?"), "w": self.windex.get(p.worker_id, 0)}
+                )
+            elif p.placement_type == PT.LOAD_WORK_PROFILE:
+                loads.append(p)
+                ls = p.loading_strategy
+                call["loads"].append(
+                    {
+                        "m": self.model_of_profile.get(p.work_profile.id, "?"),
+                        "w": self.windex.get(p.worker_id, 0),
+                        "mem": ls.resources.get_total_quantity(self.ram_any),
+                        "lt": ls.runtime.to(US).time,
+                    }
+                )
         for ps in by_batch.values():
             es = ps[0].execution_strategy
             call["batches"].append(
@@ -218,7 +313,18 @@ class RealWorld:
                     "reqs": [self.req_of_task[p.task.id] for p in ps],
                 }
             )
-        # apply the answer the way the simulator does
+        # apply the answer the way the simulator does: events of one instant are handled in the order of
+        # their EventType (TASK_CANCEL, EVICT_PROFILE, LOAD_PROFILE, TASK_PLACEMENT)
+        for i, p in enumerate(evicts, 1):
+            try:
+                self.pool.evict_profile(p.work_profile, p.worker_id)
+            except (ValueError, KeyError):  # not on that worker / no such worker
+                call["lfailed"].append(-i)
+        for i, p in enumerate(loads, 1):
+            try:
+                self.pool.load_profile(p.work_profile, p.loading_strategy, p.worker_id)
+            except (ValueError, KeyError, RuntimeError):  # the ledger refuses the allocation / no such worker
+                call["lfailed"].append(i)
         for p in placements:
             t = p.task if p.placement_type in (PT.CANCEL_TASK, PT.PLACE_TASK) else None
             if t is None:
@@ -246,6 +352,11 @@ class RealWorld:
             "cancelled": call["cancelled"],
             "batches": sorted([b["m"], b["b"], b["w"], sorted(b["reqs"])] for b in call["batches"]),
             "free": call["free"],
+            "evicts": sorted([e["m"], e["w"]] for e in call["evicts"]),
+            "loads": sorted([l["m"], l["w"]] for l in call["loads"]),
+            "loaded": call["loaded"],
+            "pending": call["pending"],
+            "fmem": call["fmem"],
         }
         return call
 
@@ -255,7 +366,7 @@ class RealWorld:
             self.arrive(int(args[0]), int(args[1]))
         elif name == "Tick":
             self.tick(int(args[0]))
-        elif name.startswith("Invoke"):
+        elif name.startswith("Invoke") or name.startswith("Schedule"):
             self.invoke()
         else:
             raise AssertionError(name)
@@ -271,6 +382,11 @@ class RealWorld:
                     "cancelled": o["cancelled"],
                     "batches": sorted([b["m"], b["b"], b["w"], sorted(b["reqs"])] for b in o["batches"]),
                     "free": o["free"],
+                    "evicts": sorted([e["m"], e["w"]] for e in o["evicts"]),
+                    "loads": sorted([l["m"], l["w"]] for l in o["loads"]),
+                    "loaded": o["loaded"],
+                    "pending": o["pending"],
+                    "fmem": o["fmem"],
                 },
                 "obs": state["obs"],
             }
@@ -285,10 +401,11 @@ class RealWorld:
                 "reqs": [
                     {"m": q["m"], "dl": self.deadline.get(r, 0)} for r, q in enumerate(self.cfg["Reqs"], 1)
                 ],
+                "load": {m: dict(self.cfg["LoadOf"][m]) for m in self.models},
             },
             "calls": list(self.calls),
             "goal": self.cfg["Goal"],
-            "cfg": _norm({k: self.cfg[k] for k in ("Strats", "Reqs", "Workers", "Goal", "InitOrder")}),
+            "cfg": _norm({k: self.cfg[k] for k in ("Strats", "Reqs", "Workers", "Goal", "InitOrder", "RunLoad", "LoadOf")}),
             "script": list(self.script),
         }
 
@@ -435,28 +552,72 @@ def random_world(rnd):
     }
 
 
-def random_history(seed_salt, n):
+def random_load_world(rnd):
+    """run_load on: 2-4 models of different size / load time / request rate / urgency, workers whose model
+    memory holds only some of them (an absent model needs an eviction), residents chosen at random"""
+    nm = rnd.choice([2, 3, 3, 4])
+    models = ["A", "B", "C", "D"][:nm]
+    strats, load, rate, slack = {}, {}, {}, {}
+    for m in models:
+        sizes = sorted(rnd.sample([1, 2, 3, 4], rnd.choice([1, 2, 2, 3])))
+        base = rnd.choice([1, 2])
+        strats[m] = [S(b, base + (b - 1) // rnd.choice([1, 2]) + rnd.choice([0, 0, 1]), rnd.choice([1, 1, 2])) for b in sizes]
+        rnd.shuffle(strats[m])
+        load[m] = L(rnd.choice([1, 1, 2]), rnd.choice([1, 1, 2, 3]))
+        rate[m] = rnd.choice([1, 1, 2, 4, 6])  # hot and cold models
+        # urgent models (little slack: high load priority) and relaxed ones (whose full batches wait on time)
+        slack[m] = rnd.choice([[0, 1, 1, 2, 3], [2, 3, 4, 6], [4, 6, 8, 10, 12], [-1, 0, 1, 2, 3, 4, 6, 8]])
+    nreq = rnd.randint(5, 16)
+    pool = [m for m in models for _ in range(rate[m])]
+    reqs = [{"m": rnd.choice(pool), "dls": set(), "arr": 0} for _ in range(nreq)]
+    biggest = max(load[m]["mem"] for m in models)
+    total = sum(load[m]["mem"] for m in models)
+    workers = []
+    for _ in range(rnd.choice([1, 2, 2, 3])):
+        mem = rnd.choice([biggest, biggest, max(biggest, total - 1), max(biggest, total // 2), total])
+        resident, left = [], mem
+        for m in rnd.sample(models, nm):
+            if load[m]["mem"] <= left and rnd.random() < 0.85:
+                resident.append(m)
+                left -= load[m]["mem"]
+        workers.append(Wk(rnd.choice([1, 2, 2, 3]), resident, mem))
+    init = rnd.sample(models, rnd.choice([0, nm, nm, rnd.randint(0, nm)]))
+    return {
+        "Strats": strats,
+        "Reqs": reqs,
+        "Workers": workers,
+        "Goal": rnd.choice(["clockwork", "least_slack"]),
+        "InitOrder": init,
+        "RunLoad": True,
+        "LoadOf": load,
+        "_slack": slack,
+    }
+
+
+def random_history(seed_salt, n, load=False):
     """n random executions on the real scheduler -> histories (JSON)."""
     rnd = rng(seed_salt)
     out = []
     stats = collections.Counter()
     for i in range(n):
-        cfg = random_world(rnd)
+        cfg = random_load_world(rnd) if load else random_world(rnd)
+        slacks = cfg.pop("_slack", None)
         wd = RealWorld(cfg)
         wd.fresh()
         pending = list(range(1, wd.nreq + 1))
         rnd.shuffle(pending)
         steps = 0
         try:
-            while steps < 40 and (pending or steps < 12):
+            while steps < (60 if load else 40) and (pending or steps < 12):
                 steps += 1
                 x = rnd.random()
                 if pending and x < 0.45:
                     for _ in range(rnd.choice([1, 1, 2, 3])):
                         if pending:
                             r = pending.pop()
-                            fastest = min(s["rt"] for s in cfg["Strats"][cfg["Reqs"][r - 1]["m"]])
-                            slack = rnd.choice([-1, 0, 0, 1, 1, 2, 2, 3, 4, 6])
+                            m = cfg["Reqs"][r - 1]["m"]
+                            fastest = min(s["rt"] for s in cfg["Strats"][m])
+                            slack = rnd.choice(slacks[m] if slacks else [-1, 0, 0, 1, 1, 2, 2, 3, 4, 6])
                             wd.arrive(r, max(0, wd.now + fastest + slack))
                 elif x < 0.75:
                     wd.invoke()
@@ -467,26 +628,28 @@ def random_history(seed_salt, n):
             wd.invoke()
         except Exception as ex:  # the code under test raised: keep what was observed
             wd.crash = f"{type(ex).__name__}: {ex}"
+            wd.crash_site = _crash_site(ex)
         h = wd.history(f"{seed_salt}/{i}")
         if wd.crash:
             h["crash"] = wd.crash
+            h["crash_site"] = wd.crash_site
             stats["crashed"] += 1
         stats["calls"] += len(h["calls"])
         out.append(h)
     return out, dict(stats)
 
 
-def _t_job(salt, n, tier):
+def _t_job(salt, n, tier, load=False):
     res = CheckResult(PID, tier)
     t0 = time.time()
-    histories, st = random_history(salt, n)
+    histories, st = random_history(salt, n, load)
     crashed = [h for h in histories if "crash" in h]
     for h in crashed[:2]:
         res.violate(
             _crash_clause(h["crash"]),
-            f"ClockworkScheduler raised on a random history: {h['crash']}",
+            f"ClockworkScheduler{' (run_load)' if load else ''} raised on a random history: {h['crash']}",
             {"history": h},
-            key=f"crash|{h['crash'].split(':')[0]}",
+            key=f"crash|run_load|{h['crash_site']}" if load else f"crash|{h['crash'].split(':')[0]}",
         )
     res.extra["random_histories"] = {
         "jobs": 1,
@@ -495,11 +658,20 @@ def _t_job(salt, n, tier):
         "crashed": len(crashed),
         "clockwork": sum(h["goal"] == "clockwork" for h in histories),
         "least_slack": sum(h["goal"] == "least_slack" for h in histories),
-        "with_12_requests": sum(len(h["world"]["reqs"]) == 12 for h in histories),
+        "with_12_requests": sum(len(h["world"]["reqs"]) >= 12 for h in histories),
+        "run_load": len(histories) if load else 0,
         "run_wall_s": round(time.time() - t0, 1),
     }
     res.extra["random_histories"] = {salt: res.extra["random_histories"]}
-    check_histories(res, histories, f"random@{salt}", chunk=3000, par=False)
+    check_histories(res, histories, f"{'random_run_load' if load else 'random'}@{salt}", chunk=3000, par=False)
+    if salt.endswith("TL0"):
+        for h in histories:
+            if len(res.samples) < 1 and any(c["evicts"] and c["batches"] for c in h["calls"]):
+                res.samples.append(
+                    {"kind": "random run_load history checked by RecCheck", "id": h["id"], "goal": h["goal"],
+                     "world": h["world"], "workers": h["cfg"]["Workers"],
+                     "calls": [c for c in h["calls"] if c["evicts"] or c["loads"]][:3]}
+                )
     if salt.endswith("T0"):
         for h in histories:
             if any(b["b"] > 1 for c in h["calls"] for b in c["batches"]) and len(res.samples) < 1:
@@ -648,6 +820,261 @@ def simulate_worlds(tier):
     return w
 
 
+# worlds with --scheduler_run_load: model memory is tight, the policy loads / evicts itself
+LAB = {"A": L(1, 1), "B": L(1, 1)}
+
+
+def load_mc_worlds(tier):
+    """exhaustive over arrival histories, instants and *every* priority order run_load may see"""
+    w = {}
+    # one worker that holds one model: every load needs the eviction of the resident model, whose
+    # requests (a full on-time batch of two) may be queued at that instant
+    w["L1"] = {
+        "Strats": {"A": S12, "B": S12},
+        "Reqs": [Q("A", {3, 4}), Q("A", {4}), Q("B", {3, 4}), Q("B", {4})],
+        "Workers": [Wk(1, "A", 1)],
+        "InitOrder": ["B"],
+        "MaxT": 4,
+        "Steps": {1, 2},
+        "RunLoad": True,
+        "LoadOf": {"A": L(1, 1), "B": L(1, 2)},
+    }
+    # two workers with different residents and memories, models of different size
+    w["L2"] = {
+        "Strats": {"A": [S(1, 1)], "B": S12},
+        "Reqs": ([Q("A", {3})] if tier == "quick" else [Q("A", {2, 3}), Q("A", {4})]) + [Q("B", {3}), Q("B", {3, 4})],
+        "Workers": [Wk(1, "A", 2), Wk(2, "B", 2)],
+        "InitOrder": [],
+        "MaxT": 3 if tier == "quick" else 4,
+        "Steps": {1},
+        "RunLoad": True,
+        "LoadOf": {"A": L(1, 1), "B": L(2, 1)},
+    }
+    if tier != "quick":
+        # three models on a worker that holds two: the eviction leaves another model loaded, whose batch
+        # goes to the evicting worker in the same answer
+        w["L3"] = {
+            "Strats": {"A": S12, "B": [S(1, 1)], "C": [S(1, 1)]},
+            "Reqs": [Q("A", {3, 4}), Q("A", {4}), Q("B", {3}), Q("C", {3, 4}), Q("C", {4})],
+            "Workers": [Wk(2, "AB", 2)],
+            "InitOrder": ["C"],
+            "MaxT": 4,
+            "Steps": {1, 2},
+            "RunLoad": True,
+            "LoadOf": {"A": L(1, 1), "B": L(1, 1), "C": L(1, 2)},
+        }
+        w["L1_5"] = dict(w["L1"], MaxT=5, Reqs=w["L1"]["Reqs"] + [Q("A", {5})])
+    return w
+
+
+def load_replay_worlds(tier):
+    """small enough for the whole graph to be dumped and walked on the real scheduler"""
+    w = {}
+    w["lr1"] = {
+        "Strats": {"A": S12, "B": [S(1, 1)]},
+        "Reqs": [Q("A", {3}), Q("A", {3, 4}), Q("B", {3, 4})],
+        "Workers": [Wk(1, "A", 1)],
+        "InitOrder": ["B"],
+        "MaxT": 3,
+        "Steps": {1},
+        "RunLoad": True,
+        "LoadOf": LAB,
+    }
+    # three models, the worker holds the two small ones or the big one (loading it takes two evictions, the
+    # first of which does not make room), compute for two batches
+    w["lr2"] = {
+        "Strats": {"A": [S(1, 1)], "B": [S(1, 2)], "C": [S(1, 1)]},
+        "Reqs": [Q("A", {3}), Q("B", {3}), Q("C", {3, 4})],
+        "Workers": [Wk(2, "AB", 2)],
+        "InitOrder": ["A", "B", "C"],
+        "MaxT": 3,
+        "Steps": {1},
+        "RunLoad": True,
+        "LoadOf": {"A": L(1, 1), "B": L(1, 1), "C": L(2, 1)},
+    }
+    # two workers, each holds one model
+    w["lr3"] = {
+        "Strats": {"A": [S(1, 1)], "B": S12},
+        "Reqs": [Q("A", {3}), Q("B", {3}), Q("B", {3})],
+        "Workers": [Wk(1, "A", 1), Wk(1, "B", 1)],
+        "InitOrder": [],
+        "MaxT": 3,
+        "Steps": {1},
+        "RunLoad": True,
+        "LoadOf": LAB,
+    }
+    return w
+
+
+def load_simulate_worlds(tier):
+    """bigger worlds: TLC `-simulate` behaviours are used as action scripts on the real scheduler"""
+    w = {}
+    w["lsA"] = {
+        "Strats": {"A": [S(1, 1), S(2, 2)], "B": [S(2, 2, 2), S(1, 1)], "C": [S(1, 2), S(3, 3)]},
+        "Reqs": [
+            Q("A", {4, 6, 9}), Q("B", {5, 7}), Q("A", {5, 8}), Q("C", {6, 9}), Q("B", {6, 8, 10}), Q("A", {6, 7}),
+            Q("C", {7, 10}), Q("C", {8, 10}), Q("B", {7, 9}), Q("A", {8, 10}),
+        ],
+        "Workers": [Wk(2, "A", 2), Wk(2, "BC", 3)],
+        "InitOrder": ["C", "A", "B"],
+        "MaxT": 10,
+        "Steps": {1, 2, 3},
+        "RunLoad": True,
+        "LoadOf": {"A": L(1, 1), "B": L(2, 2), "C": L(1, 3)},
+    }
+    w["lsB"] = {
+        "Strats": {"A": [S(2, 2), S(1, 1)], "B": [S(1, 1), S(2, 1, 2)], "C": [S(1, 1)], "D": [S(2, 3), S(1, 2)]},
+        "Reqs": [
+            Q("A", {5, 8}), Q("A", {5, 8}), Q("B", {4, 6}), Q("D", {6, 9}), Q("C", {5, 7}), Q("D", {6, 9}), Q("B", {6, 8}),
+            Q("A", {7, 9}), Q("C", {6, 9}), Q("D", {8, 10}), Q("B", {7, 10}), Q("A", {8, 10}),
+        ],
+        "Workers": [Wk(1, "AB", 2), Wk(2, "C", 2), Wk(2, "AD", 2)],
+        "InitOrder": [],
+        "MaxT": 10,
+        "Steps": {1, 2},
+        "RunLoad": True,
+        "LoadOf": {"A": L(1, 2), "B": L(1, 1), "C": L(2, 2), "D": L(1, 1)},
+    }
+    return w
+
+
+class NDWalker:
+    """Replay of a state graph whose Invoke edges are non-deterministic (run_load's priority order is
+    free in the spec): the harness chooses Arrive / Tick / Invoke, executes it on the real world and
+    continues in the successor whose `out` / `obs` equal the projection of the real objects.  No such
+    successor = the real answer is none of the answers the spec allows (divergence, clause batch_eq)."""
+
+    def __init__(self, graph, world):
+        self.g = graph
+        self.ad = world
+        self.moves = {}  # node -> OrderedDict move -> [dst]
+        for n, outs in graph.edges.items():
+            mv = collections.OrderedDict()
+            for label, dst in outs:
+                key = "Invoke" if label.startswith(("Invoke", "Schedule")) else label
+                if dst not in mv.setdefault(key, []):
+                    mv[key].append(dst)
+            self.moves[n] = mv
+        self.abs_cache = {}
+        self.divergences = []
+        self.div_keys = collections.Counter()
+        self.steps = self.paths = 0
+        self.covered = set()  # (node, move)
+        self.realised = set()  # (node, dst) over Invoke moves
+        self.nd_choices = collections.Counter()  # number of spec alternatives -> invocations
+
+    def abstract(self, nid):
+        a = self.abs_cache.get(nid)
+        if a is None:
+            a = self.abs_cache[nid] = self.ad.abstract(self.g.states[nid])
+        return a
+
+    def _record(self, d):
+        self.div_keys[d.key()] += 1
+        if self.div_keys[d.key()] <= 3:
+            self.divergences.append(d)
+
+    def start(self):
+        self.paths += 1
+        self.ad.fresh()
+        init = self.g.init[0]
+        got, exp = self.ad.project(), self.abstract(init)
+        if got != exp:
+            self._record(rpl.Divergence("init", "", rpl.diff_fields(exp, got), [], exp, got))
+            return None
+        return init
+
+    def step(self, node, move, path):
+        """returns the successor the real world went to, None after a divergence"""
+        name, args = tlaval.split_call(move)
+        self.steps += 1
+        self.covered.add((node, move))
+        try:
+            self.ad.apply(name, args)
+        except Exception as ex:  # noqa
+            self._record(rpl.Divergence("exception", move, {_crash_site(ex)}, path + [move], error=repr(ex)))
+            return None
+        got = self.ad.project()
+        dsts = self.moves[node][move]
+        if move == "Invoke":
+            self.nd_choices[len(dsts)] += 1
+        for dst in dsts:
+            if self.abstract(dst) == got:
+                if move == "Invoke":
+                    self.realised.add((node, dst))
+                return dst
+        # nearest alternative, for the report
+        best = min(dsts, key=lambda d: len(rpl.diff_fields(self.abstract(d), got)))
+        exp = self.abstract(best)
+        self._record(rpl.Divergence("state", move, rpl.diff_fields(exp, got), path + [move], exp, got))
+        return None
+
+    def all_scripts(self, depth, budget_s):
+        """every maximal sequence of moves of length <= depth (depth-first; the real world is deterministic,
+        so a script always ends in the same node), each executed from fresh objects; budgets are CPU seconds of
+        this process (safety nets that do not depend on the load of the machine)"""
+        t0 = time.process_time()
+        script = []
+        while time.process_time() - t0 < budget_s:
+            node = self.start()
+            path, nodes = [], [node]
+            while node is not None and len(path) < depth:
+                mvs = list(self.moves[node])
+                if not mvs:
+                    break
+                mv = script[len(path)] if len(path) < len(script) else mvs[0]
+                node = self.step(node, mv, path)
+                path.append(mv)
+                nodes.append(node)
+            # next script: the deepest position with a move not tried yet
+            i = len(path) - 1
+            while i >= 0:
+                mvs = list(self.moves[nodes[i]])
+                k = mvs.index(path[i])
+                if k + 1 < len(mvs):
+                    script = path[:i] + [mvs[k + 1]]
+                    break
+                i -= 1
+            else:
+                return True
+        return False
+
+    def walks(self, n, depth, rnd, budget_s):
+        """random walks that prefer moves not executed yet"""
+        t0 = time.process_time()
+        for _ in range(n):
+            if time.process_time() - t0 > budget_s:
+                break
+            node = self.start()
+            path = []
+            for _ in range(depth):
+                if node is None:
+                    break
+                mv = list(self.moves[node])
+                if not mv:
+                    break
+                new = [m for m in mv if (node, m) not in self.covered]
+                m = rnd.choice(new) if new and rnd.random() < 0.8 else rnd.choice(mv)
+                node = self.step(node, m, path)
+                path.append(m)
+
+    def total_moves(self):
+        return sum(len(m) for m in self.moves.values())
+
+
+def _crash_site(ex):
+    """innermost frame of the repository in the traceback of `ex`: 'file.py:function:ExceptionType'
+    (a finding key that does not depend on the world / leg that ran into it)"""
+    import traceback
+
+    here = os.path.dirname(os.path.abspath(__file__))
+    site = "?"
+    for fr in traceback.extract_tb(ex.__traceback__):
+        if not os.path.abspath(fr.filename).startswith(here):
+            site = f"{os.path.basename(fr.filename)}:{fr.name}"
+    return f"{site}:{type(ex).__name__}"
+
+
 def _crash_clause(msg):
     """an exception out of schedule(): the virtual worker's ledger refusing an allocation is the
     'worker can hold the strategy' clause, anything else is reported as a crash"""
@@ -674,6 +1101,7 @@ def _tlc_violation(res, r, name, cfg):
 
 def _mc_job(name, cfg, tier, cov):
     res = CheckResult(PID, tier)
+    cfg = full(cfg)
     with Scratch() as scratch:
         mod, cf = mcgen.write_mc(scratch, "Clockwork", cfg, name="MC_Clockwork", invariants=list(INVARIANTS))
         r = tlc.run_tlc(mod, cf, workers=2 if tier == "quick" else 4, java_opts=JOPTS, timeout=7200, coverage=cov)
@@ -691,6 +1119,11 @@ def jobs_M(tier):
             # `-coverage 1` roughly doubles the cost: per-action coverage is collected on the quick-tier
             # worlds (and on every dumped graph in R)
             jobs.append((_mc_job, (f"{wn}/{goal}", dict(w, Goal=goal), tier, wn in ("1w", "2w", "ties"))))
+    goals = ("clockwork", "least_slack")
+    for i, (wn, w) in enumerate(load_mc_worlds(tier).items()):
+        # (the goal only orders the inference loop; quick: one goal per world, alternating with the seed)
+        for goal in goals if tier != "quick" else (goals[(i + verif_seed()) % 2],):
+            jobs.append((_mc_job, (f"{wn}/{goal}", dict(w, Goal=goal), tier, False)))
     return jobs
 
 
@@ -718,7 +1151,7 @@ def _shape_stats(g):
     return dict(c)
 
 
-def _divergences(res, rp, name, broken_ids, world):
+def _divergences(res, rp, name, broken_ids, world, crash_key=None):
     """batch_eq: disagreements with the spec's exact answer are notes; a VIOLATION only if a
     property clause is broken in an execution of the same replay."""
     if not rp.div_keys:
@@ -748,12 +1181,13 @@ def _divergences(res, rp, name, broken_ids, world):
             _crash_clause(exc[0].error or ""),
             f"{name}: the real objects raised while replaying a spec behaviour: {exc[0].error}",
             exc[0].detail(),
-            key=f"crash|{name}|{sorted(exc[0].fields)}",
+            key=crash_key(exc[0]) if crash_key else f"crash|{name}|{sorted(exc[0].fields)}",
         )
 
 
 def _replay_graph_job(name, cfg, tier):
     res = CheckResult(PID, tier)
+    cfg = full(cfg)
     q = tier == "quick"
     with Scratch() as scratch:
         mod, cf = mcgen.write_mc(scratch, "Clockwork", cfg, name="MC_Clockwork", invariants=list(INVARIANTS))
@@ -836,6 +1270,7 @@ def _behaviour_graph(beh):
 
 def _replay_sim_job(name, cfg, tier, num, depth, seed):
     res = CheckResult(PID, tier)
+    cfg = full(cfg)
     with Scratch() as scratch:
         mod, cf = mcgen.write_mc(scratch, "Clockwork", cfg, name="MC_Clockwork", invariants=list(INVARIANTS))
         prefix = os.path.join(scratch, "beh")
@@ -885,6 +1320,152 @@ def _replay_sim_job(name, cfg, tier, num, depth, seed):
     return res
 
 
+def _load_shape_stats(g):
+    c = collections.Counter()
+    for s in g.states.values():
+        o = s["out"]
+        if o["at"] < 0:
+            continue
+        c["invocation_states"] += 1
+        if o["loads"]:
+            c["with_load"] += 1
+        if o["evicts"]:
+            c["with_eviction"] += 1
+        if o["evicts"] and o["batches"]:
+            c["eviction_and_batches"] += 1
+        if any(b["w"] == e["w"] for b in o["batches"] for e in o["evicts"]):
+            c["batch_on_evicting_worker"] += 1
+        if len(o["evicts"]) > 1:
+            c["several_evictions"] += 1
+        if o["evicts"] and not o["loads"]:
+            c["eviction_without_load"] += 1
+    return dict(c)
+
+
+def _load_graph_job(name, cfg, tier):
+    """R for run_load: dump the graph of a small world (Invoke edges: one per answer that some priority
+    order yields) and walk it on a real scheduler with run_load on, on an evolving real cluster."""
+    res = CheckResult(PID, tier)
+    cfg = full(cfg)
+    q = tier == "quick"
+    with Scratch() as scratch:
+        mod, cf = mcgen.write_mc(scratch, "Clockwork", cfg, name="MC_Clockwork", invariants=list(INVARIANTS))
+        dot = os.path.join(scratch, "graph")
+        # (per-action coverage doubles TLC's cost: collected on the smallest world only)
+        r = tlc.run_tlc(mod, cf, workers=2, dump_dot=dot, java_opts=JOPTS, timeout=3000, coverage=name.startswith("lr1"))
+        _fix_coverage(r)
+        res.add_tlc(f"R/{name}", r)
+        if not r.ok:
+            _tlc_violation(res, r, name, cfg)
+            return res
+        g = tlc.load_dot(dot + ".dot")
+    world = CollectingWorld(cfg, f"R/{name}", cap=4000 if q else 40000)
+    wk = NDWalker(g, world)
+    t0 = time.time()
+    depth = 5 if q else 6
+    complete = wk.all_scripts(depth, budget_s=40 if q else 240)
+    n_exh = wk.paths
+    wk.walks(300 if q else 4000, 30, rng("Lw" + name), budget_s=30 if q else 240)
+    hist = world.histories()
+    nd_nodes = sum(1 for m in wk.moves.values() if len(m.get("Invoke", [])) > 1)
+    inv_edges = sum(len(m.get("Invoke", [])) for m in wk.moves.values())
+    res.extra.setdefault("replay", []).append(
+        {
+            "model": name,
+            "run_load": True,
+            "graph_states": len(g.states),
+            "graph_moves": wk.total_moves(),
+            "shapes": _load_shape_stats(g),
+            "invoke_nodes_with_several_answers": nd_nodes,
+            "scripts_exhaustive_depth": depth,
+            "scripts_exhaustive_complete": bool(complete),
+            "scripts_exhaustive": n_exh,
+            "paths_total": wk.paths,
+            "steps_executed": wk.steps,
+            "move_cover_fraction": round(len(wk.covered) / max(1, wk.total_moves()), 4),
+            "spec_answers_realised_by_code": f"{len(wk.realised)}/{inv_edges}",
+            "invocations_by_number_of_spec_answers": {str(k): v for k, v in sorted(wk.nd_choices.items())},
+            "distinct_histories_recorded": len(hist),
+            "divergence_keys": dict(wk.div_keys),
+            "wall_s": round(time.time() - t0, 1),
+        }
+    )
+    broken = check_histories(res, hist, f"replay:{name}", chunk=3000, par=False)
+    _divergences(res, wk, name, broken, world, crash_key=lambda d: f"crash|run_load|{sorted(d.fields)[0]}")
+    for h in hist:
+        if len(res.samples) < 1 and any(c["evicts"] and c["batches"] for c in h["calls"]):
+            res.samples.append(
+                {"kind": "replayed script with run_load (real answer is one of the spec's)", "model": name,
+                 "script": h["script"], "calls": [c for c in h["calls"] if c["evicts"] or c["loads"] or c["batches"]][:3]}
+            )
+    return res
+
+
+def _load_sim_job(name, cfg, tier, num, depth, seed):
+    """TLC `-simulate` behaviours of a bigger run_load world as action scripts (arrival histories,
+    deadlines, invocation instants) for the real scheduler; the recorded calls are judged by RecCheck."""
+    res = CheckResult(PID, tier)
+    cfg = full(cfg)
+    # TLC's simulator computes every successor at each step: the priority orders are restricted to the
+    # rotations of the model list, the same on every worker (the behaviours are used as scripts only)
+    ms = sorted(cfg["Strats"])
+    rots = ", ".join(tlaval.to_tla(ms[k:] + ms[:k]) for k in range(len(ms)))
+    consts = dict(cfg, PrioChoices=mcgen.Raw(f"{{[w \\in W |-> p] : p \\in {{{rots}}}}}"))
+    with Scratch() as scratch:
+        mod, cf = mcgen.write_mc(scratch, "Clockwork", consts, name="MC_Clockwork", invariants=list(INVARIANTS))
+        prefix = os.path.join(scratch, "beh")
+        r = tlc.run_tlc(
+            mod, cf, workers=1, simulate=f"file={prefix},num={num}", depth=depth, seed=seed, java_opts=JOPTS,
+            timeout=3000, coverage=False,
+        )
+        if not r.ok:
+            _tlc_violation(res, r, name, cfg)
+            return res
+        files = sorted(f for f in os.listdir(scratch) if f.startswith("beh"))
+        behs = [tlc.load_behaviour(os.path.join(scratch, f)) for f in files]
+    world = CollectingWorld(cfg, f"S/{name}", cap=100000)
+    steps = scripts = crashed = 0
+    spec_shapes = collections.Counter()
+    for beh in behs:
+        if len(beh) < 2:
+            continue
+        g, _ = _behaviour_graph(beh)
+        for k, v in _load_shape_stats(g).items():
+            spec_shapes[k] += v
+        world.fresh()
+        scripts += 1
+        try:
+            for label, _ in beh[1:]:
+                nm, args = tlaval.split_call(label)
+                world.apply(nm, args)
+                steps += 1
+        except Exception as ex:  # noqa
+            crashed += 1
+            if crashed <= 2:
+                msg = f"{type(ex).__name__}: {ex}"
+                res.violate(
+                    _crash_clause(msg),
+                    f"{name}: ClockworkScheduler (run_load) raised on a TLC-generated history: {msg}",
+                    {"history": world.history(f"S/{name}/crash{crashed}")},
+                    key=f"crash|run_load|{_crash_site(ex)}",
+                )
+    hist = world.histories()
+    res.extra.setdefault("replay", []).append(
+        {
+            "model": name,
+            "run_load": True,
+            "simulated_behaviours_used_as_scripts": scripts,
+            "depth": depth,
+            "steps_executed": steps,
+            "spec_shapes": dict(spec_shapes),
+            "crashed": crashed,
+            "distinct_histories_recorded": len(hist),
+        }
+    )
+    check_histories(res, hist, f"simulate:{name}@{seed}", chunk=3000, par=False)
+    return res
+
+
 def jobs_R(tier):
     q = tier == "quick"
     jobs = []
@@ -897,16 +1478,36 @@ def jobs_R(tier):
                 jobs.append(
                     (_replay_sim_job, (f"{sn}/{goal}", dict(sw, Goal=goal), tier, 150 if q else 1000, 32, 1000 + k + 7919 * verif_seed()))
                 )
+    # run_load
+    goals = ("clockwork", "least_slack")
+    for i, (wn, w) in enumerate(load_replay_worlds(tier).items()):
+        for goal in goals if not q else (goals[(i + verif_seed()) % 2],):
+            jobs.append((_load_graph_job, (f"{wn}/{goal}", dict(w, Goal=goal), tier)))
+    for i, (sn, sw) in enumerate(load_simulate_worlds(tier).items()):
+        for goal in goals if not q else (goals[(i + 1 + verif_seed()) % 2],):
+            for k in range(1 if q else 2):
+                jobs.append(
+                    (_load_sim_job, (f"{sn}/{goal}", dict(sw, Goal=goal), tier, 40 if q else 300, 32, 2000 + k + 7919 * verif_seed()))
+                )
     return jobs
 
 
 def jobs_T(tier):
     n, per = (1600, 400) if tier == "quick" else (40000, 2500)
-    return [(_t_job, (f"T{k}", per, tier)) for k in range(n // per)]
+    jobs = [(_t_job, (f"T{k}", per, tier)) for k in range(n // per)]
+    n, per = (900, 300) if tier == "quick" else (30000, 2500)
+    return jobs + [(_t_job, (f"TL{k}", per, tier, True)) for k in range(n // per)]
 
 
 def _dispatch(fn, args):
-    return fn(*args)
+    t0, c0 = time.time(), sum(os.times()[:4])
+    res = fn(*args)
+    # CPU seconds of the job and its TLC runs (the wall time depends on what else the machine is doing)
+    res.extra.setdefault("job_cost", {})[f"{fn.__name__.strip('_')}:{args[0]}"] = {
+        "cpu_s": round(sum(os.times()[:4]) - c0, 1),
+        "wall_s": round(time.time() - t0, 1),
+    }
+    return res
 
 
 def _aggregate(extra):
@@ -936,14 +1537,22 @@ def _aggregate(extra):
 def run(tier: str) -> CheckResult:
     res = CheckResult(PID, tier)
     res.assumptions = [
-        "run_load is off (the default): models are loaded on the workers by the harness (WorkerPool.load_profile "
-        "with a zero-time strategy, then a step); loading / eviction decisions are not modelled",
-        "one resource type (GPU, id 'any' in strategies) and one worker pool; strategies of a model have distinct "
-        "batch sizes and runtimes >= 1; every request is its own one-task TaskGraph, offered in workload order",
+        "both modes: run_load off (the default; models resident from the start, loaded by the harness with "
+        "WorkerPool.load_profile and a zero-time strategy, then a step) and --scheduler_run_load (the policy emits "
+        "LOAD / EVICT itself on memory-tight workers; residents at the start are loaded the same way)",
+        "run_load: model memory is a resource type of its own (RAM, id 'any'; execution strategies use GPU only), one "
+        "loading strategy per model with load time >= 1, every model fits into the empty memory of every worker "
+        "(run_load picks the loading strategy on an emptied copy of the worker and dereferences None otherwise); the "
+        "priority order of run_load (floating-point demand arithmetic) is left free in the spec: the state machine "
+        "holds for every order, the replay accepts any answer that some order yields",
+        "one worker pool; strategies of a model have distinct batch sizes and runtimes >= 1; every request is its own "
+        "one-task TaskGraph, offered in workload order",
         "the harness applies the returned placements at the invocation instant (scheduler runtime 0) the way "
-        "Simulator does: Task.schedule, WorkerPool.place_task, Task.start; WorkerPool.step / remove_task / "
-        "Task.finish; Task.cancel",
-        "TLC explores Clockwork.tla exhaustively only for the constants in harness/c15.py (mc_worlds)",
+        "Simulator does, in the order of the event types of one instant (TASK_CANCEL, EVICT_PROFILE, LOAD_PROFILE, "
+        "TASK_PLACEMENT): Task.cancel; WorkerPool.evict_profile; WorkerPool.load_profile; Task.schedule, "
+        "WorkerPool.place_task, Task.start; time passes with WorkerPool.step (batches run, pending models become "
+        "available) / remove_task / Task.finish",
+        "TLC explores Clockwork.tla exhaustively only for the constants in harness/c15.py (mc_worlds, load_mc_worlds)",
         "C15.batch_eq (exact agreement with the spec's answer) is stricter than the statement and never decides "
         "the verdict alone",
     ]
